@@ -57,7 +57,8 @@ META = dict(
          "_parse does not answer hang for every fuel > (len+1-loc)*(R+1) + r id (lexicographic induction on remaining input "
          "and rank); recursive_terminates_checked_partial with advOk. PARTIAL: "
          "left-recursive tables are outside the recursive theorem (rightly: the code recurses for ever), the harness "
-         "evaluates only the acyclic tests on extracted grammars (leftRankOk needs a rank, not computed), Advancing is a semantic hypothesis "
+         "evaluates the acyclic tests and, for cyclic tables, the computed-rank test recTableOk (recursive_terminates_depth_partial, "
+         "entry_points_terminate_rec_partial: fuel > (len+1)*(D+1)+D) on extracted grammars, Advancing is a semantic hypothesis "
          "(advOk decides only a sufficient fragment: SkipTo, Opt, lookaheads, anchors as bodies are not recognised), the "
          "theorem is about the "
          "model (`hang` = where the code would loop), tied to the code by the correspondence stream; termination of the real "
@@ -92,6 +93,7 @@ THEOREMS = [
     "PP.Parse.entry_points_terminate_checked", "PP.Parse.acyclic_terminates_depth",
     "PP.Parse.entry_points_terminate_depth",
     "PP.Parse.recursive_terminates_partial", "PP.Parse.recursive_terminates_checked_partial",
+    "PP.Parse.recursive_terminates_depth_partial", "PP.Parse.entry_points_terminate_rec_partial",
 ]
 
 BOUNDARY = ["", " ", "\t", "\n", " \n ", "\r\n", "a", "ab", "ab ", " ab", "a\tb", "é", "aé b", "ab\n", "ab\n\n", "b", "a,", ",", "a\n b"]
@@ -315,7 +317,7 @@ def report(ctx, stream, res, jobs_desc):
         thm = "C06 statement (oracle)"
         if m.get("term_line") and any("did not terminate" in p for p in probs):
             try:
-                if ctx.driver.run_sharded([m["term_line"]])[0].strip() == "(T T)":
+                if ctx.driver.run_sharded([m["term_line"]])[0].strip().startswith("(T T"):
                     thm = "PP.Parse.entry_points_terminate_depth (termcheck holds of the extracted table) + oracle"
             except Exception:  # noqa
                 pass
@@ -402,7 +404,7 @@ def run(ctx):
                        {"corr": True, "timeout": True, "prog": c["prog"], "root": c["root"], "input": c["input"], "entry": c["entry"],
                         "opts": c["opts"]},
                        "returns or raises ParseBaseException (model: " + b["model"][:80] + ")", "no return within the per-case limit (10x retried)",
-                       theorem="PP.Parse.entry_points_terminate_depth + correspondence",
+                       theorem="PP.Parse.entry_points_terminate_depth / entry_points_terminate_rec_partial + correspondence",
                        how="harness.gram.run_entry under common.with_alarm")
     # a diff on which the real code reports a location beyond len+1 is a failing input outright: the model's locations
     # are proved to lie inside the string (parse_locations_inside / parseString_error_loc_inside)
